@@ -31,7 +31,9 @@ KidLists == {<<>>,
              <<[name |-> "a", child |-> File("f1", FALSE), md |-> "m1"]>>,
              <<[name |-> "e1", child |-> File("f1", FALSE), md |-> "m0"], [name |-> "e2", child |-> File("g1", TRUE), md |-> "mt"]>>,
              <<[name |-> "a", child |-> File("g1", TRUE), md |-> "nw"]>>,
-             <<[name |-> "a", child |-> Dir("d1", TRUE), md |-> "m0"]>>}
+             <<[name |-> "a", child |-> Dir("d1", TRUE), md |-> "m0"]>>,
+             \* the spelling that loses is not packed, whatever it points to; an unknown cap held read-only
+             <<[name |-> "e1", child |-> Dir("d1", TRUE), md |-> "m0"], [name |-> "e2", child |-> Unk("u1", FALSE), md |-> "m1"]>>}
              \cup {<<[name |-> "a", child |-> Dir(x, FALSE), md |-> "m0"]>> : x \in W.imm}
 OWs == {"true", "false", "only_files"}
 
